@@ -124,13 +124,20 @@ class Term(ItemSequenceT[T]):
         # optimize a common case:
         if len(_items) == 1:
             (elem, exp) = _items[0]
-            if isinstance(elem, Rational) or elem.is_base_elem():
+            if isinstance(elem, Rational):
+                if exp == 1:
+                    self._normalized = self
+            elif elem.is_base_elem():
                 self._normalized = self
 
     def _reduce_items(self, items: ItemIterableT[T],
                       n_items: Optional[int] = None,
                       keep_item_order: bool = True) -> ItemTupleT[T]:
-        if n_items == 1:  # already reduced
+        if n_items == 1:  # already reduced, except for the power of a number
+            items = tuple(items)
+            (elem, exp), = items
+            if isinstance(elem, Rational) and exp != 1:
+                items = ((_num_pow(elem, exp), 1),)
             return tuple(_filter_items(items))
         if n_items == 2:
             elem1: ElemT[T]
